@@ -721,6 +721,200 @@ def gen_numeric(chk, n):
     return cases
 
 
+# ---- round 4: tolerance in a tie test (seeded C03-g) -------------------------------------------------------
+# Every comparison of _string_matching's mask path decides on EXACT (in)equality of table cells or of the three prices:
+# the uniform-cost shortcut `ins == del == sub`, min(insertion, substitution), the deletion fold, `row[:-1] == mins`.
+# A tolerant version of any of them (isclose, abs(a - b) < eps, a lower-precision table) is invisible while distinct
+# cells are at least one "ordinary" price apart.  The stream below draws cost triples whose prices sit on widely
+# different scales (one or two operations nearly free), or are nearly equal (triple nearly uniform, two prices nearly
+# equal, sub nearly ins + del), at magnitudes from 2^-60 to 2^64, on prefixes long enough for the distance to dwarf the
+# smallest price - all as integers over a power-of-two denominator with every table cell below 2^24 units, so the
+# float32 table of the implementation is exact and the integer model is the judge.
+F32_EXACT = 2 ** 24
+TIE_KINDS = ("tiny1", "tiny1", "tiny1", "tiny2", "near-uniform", "near-uniform", "near-pair", "near-pair", "near-sum",
+             "near-sum", "ordinary", "uniform")
+
+
+def _f32_exact(R, H, kmax):
+    """every cell of the table and every term of the deletion fold is an integer number of units <= (R + H + 2) * kmax"""
+    return (R + H + 2) * kmax < F32_EXACT
+
+
+def _tie_triple(rng, R, H):
+    """(kind, [ki, kd, ks] in units, e): 2^e units is the 'ordinary' price, 1..3 units the small one"""
+    kind = rng.choice(TIE_KINDS)
+    e = 0
+    while _f32_exact(R, H, 5 * 2 ** (e + 1) + 4):
+        e += 1
+    e = max(3, e - rng.choice([0, 0, 0, 1, 2, 3, 5, 8]))
+    u = 2 ** e
+    if kind == "tiny1":  # one operation nearly free
+        c = [rng.randint(1, 4) * u for _ in range(3)]
+        c[rng.randrange(3)] = rng.randint(1, 3)
+    elif kind == "tiny2":  # two operations nearly free
+        c = [rng.randint(1, 3) for _ in range(3)]
+        c[rng.randrange(3)] = rng.randint(1, 4) * u
+    elif kind == "near-uniform":  # one or two prices a hair off the common value
+        b = rng.randint(1, 3) * u
+        c = [b, b, b]
+        for i in rng.sample(range(3), rng.randint(1, 2)):
+            c[i] += rng.choice([1, 1, 2, -1])
+    elif kind == "near-pair":  # two prices nearly (or exactly) equal, the third elsewhere
+        b = rng.randint(1, 3) * u
+        i, j, k = rng.sample(range(3), 3)
+        c = [0, 0, 0]
+        c[i], c[j] = b, b + rng.choice([1, 1, 2, -1, 0])
+        c[k] = rng.choice([rng.randint(1, 3), rng.randint(1, 4) * u, u // 2, b + u])
+    elif kind == "near-sum":  # a substitution costs nearly (or exactly) an insertion plus a deletion
+        ki, kd = rng.randint(1, 2) * u, rng.randint(1, 2) * u
+        c = [ki, kd, ki + kd + rng.choice([-2, -1, -1, 0, 1, 1, 2])]
+    elif kind == "uniform":
+        c = [rng.randint(1, 3) * u] * 3
+    else:
+        e = 2
+        c = [rng.randint(1, 12) for _ in range(3)]
+    return kind, c, e
+
+
+def _tie_hyp(rng, r, alphabet, foreign, eos, H):
+    """a hypothesis of tensor width H: mostly tokens that do not occur in the reference (the distance grows with every
+    token), a mixture, edits of the repeated reference, or the reference over and over"""
+    body = _cut(r, eos, False)
+    style = rng.choice(["foreign", "foreign", "mixed", "mixed", "mutated", "repeat"])
+    L = H if (eos is None or rng.random() < 0.5) else rng.randint(H // 2, H - 1)
+    if style == "foreign":
+        seq = [rng.choice(foreign) for _ in range(L)]
+    elif style == "mixed":
+        seq = [rng.choice(alphabet + foreign + foreign) for _ in range(L)]
+    elif style == "mutated":
+        seq = [t for t in _mutate(rng, (body * 4)[:max(L, 1)] or [alphabet[0]], alphabet + foreign, None, L)]
+    else:
+        seq = ((body or [alphabet[0]]) * (L + 1))[:L]
+        seq = [t if rng.random() < 0.85 else rng.choice(foreign) for t in seq]
+    seq = seq[:L]
+    if len(seq) < H:
+        seq = seq + [eos] + [rng.choice(alphabet + [eos]) for _ in range(H - len(seq) - 1)]
+    return seq
+
+
+def gen_tie_scale(chk, n):
+    """cost triples on widely different scales / nearly equal prices, long prefixes, every entry point (functional
+    positional / keyword / sparse / scripted, module, scripted module; targets and loss with all reductions)"""
+    rng = chk.rng
+    cases = []
+    for i in range(n):
+        loss = i % 4 == 3
+        V = rng.randint(2, 4)
+        alphabet = list(range(V))
+        foreign = [V + 1, V + 2]
+        eos = rng.choice([None, V, V] if loss else [None, None, V, V, -1])
+        shape = rng.choice(["long", "long", "long", "mid", "mid", "short"])
+        if shape == "long":
+            R, H = rng.randint(2, 8), rng.randint(8, 14 if loss else 24)
+        elif shape == "mid":
+            R, H = rng.randint(3, 10), rng.randint(4, 10)
+        else:
+            R, H = rng.randint(1, 5), rng.randint(1, 5)
+        N = rng.randint(1, 2 if loss else 3)
+        ref = [_rand_seq(rng, R, alphabet, eos, p_noeos=0.5) for _ in range(N)]
+        hyp = [_tie_hyp(rng, r, alphabet, foreign, eos, H) for r in ref]
+        kind, costs, e = _tie_triple(rng, R, H)
+        assert _f32_exact(R, H, max(costs)) and min(costs) > 0
+        mag = rng.choice(["small", "big"] if kind in ("ordinary", "uniform") else ["unit", "unit", "unit", "small", "small", "big"])
+        if mag == "unit":  # the ordinary price is about 1
+            scale = 2 ** max(e - rng.choice([0, 0, 1, 2]), 0)
+        elif mag == "small":  # all three far below any absolute tolerance
+            scale = 2 ** (e + rng.choice([16, 24, 30, 40]))
+        else:
+            scale = 1
+            up = 2 ** rng.choice([0, 12, 30, 40])
+            costs = [k * up for k in costs]
+        case = dict(api="oc", module=rng.random() < 0.35, kw=rng.random() < 0.4, ref=ref, hyp=hyp, eos=eos,
+                    include_eos=rng.random() < 0.5, batch_first=rng.random() < 0.5, exclude_last=rng.random() < 0.4,
+                    costs=costs, scale=scale, padding=rng.choice(PADS), warn=rng.random() < 0.1, tiescale=kind + "/" + mag,
+                    stream="tie-scale")
+        if loss:
+            case = _loss_extras(rng, case, V + 1)
+            case["stream"] = "tie-scale"
+        u = rng.random()
+        if u < 0.24:
+            case["entry"] = ("sparse", "sparse", "script_fn", "script")[int(u * 100) % 4]
+        cases.append(case)
+    return cases
+
+
+def _step_row(row, tok, r, ci, cd, cs):
+    new = [row[0] + ci]
+    for j in range(1, len(r) + 1):
+        new.append(min(row[j] + ci, row[j - 1] + (0 if r[j - 1] == tok else cs), new[j - 1] + cd))
+    return new
+
+
+def oracle_pair(case, n):
+    """Independent reading of the property text on pair n, exact integer arithmetic, nothing of the library or of the
+    model: per output row k the list of tokens t of the reference with
+    min_j d(p ++ [t], r[:j]) == min_j d(p, r[:j]) for the k-token prefix p (None = 'only padding', 'any' = the excluded
+    empty hypothesis with exclude_last), and the smallest (gap, minimum) between a row's minimum and its runner-up."""
+    ci, cd, cs = case["costs"]
+    r = _cut(case["ref"][n], case["eos"], case["include_eos"])
+    h = _cut(case["hyp"][n], case["eos"], case["include_eos"])
+    excl = case.get("exclude_last", True)
+    row = [j * cd for j in range(len(r) + 1)]
+    want, near = [], None
+    for k in range(_rows(case)):
+        if k < len(h) + (0 if excl else 1):
+            m = min(row)
+            want.append([t for t in sorted(set(r)) if min(_step_row(row, t, r, ci, cd, cs)) == m])
+            up = [x - m for x in row if x > m]
+            if up and m > 0 and (near is None or min(up) * near[1] < near[0] * m):
+                near = (min(up), m)
+            if k < len(h):
+                row = _step_row(row, h[k], r, ci, cd, cs)
+        else:
+            want.append("any" if excl and not h else None)
+    return want, near
+
+
+def oracle_ok(case, out):
+    """the optimal_completion output judged by oracle_pair: each row = the wanted tokens once each, then padding"""
+    if "exc" in out or "unstable" in out or not _oc_shape_ok(case, out) or out["dtype"] != "torch.int64":
+        return False
+    pad = case["padding"]
+    for n in range(len(case["ref"])):
+        want, _ = oracle_pair(case, n)
+        for w, row in zip(want, _pair_rows(case, out, n)):
+            if w == "any":
+                continue
+            w = w or []
+            head, tail = list(row[:len(w)]), list(row[len(w):])
+            if len(row) < len(w) or sorted(head) != w or any(t != pad for t in tail):
+                return False
+    return True
+
+
+def _spec_work(case):
+    """rough number of steps C03.Spec needs (lev recurses over edit scripts: Delannoy numbers)"""
+    worst = 0
+    for r, h in zip(case["ref"], case["hyp"]):
+        a, b = len(_cut(r, case["eos"], case["include_eos"])), len(_cut(h, case["eos"], case["include_eos"]))
+        d = [1] * (b + 1)
+        for _ in range(a):
+            nd = [1]
+            for j in range(1, b + 1):
+                nd.append(nd[j - 1] + d[j] + d[j - 1])
+            d = nd
+        worst = max(worst, (b + 1) * a * (a + 1) * d[b])
+    return worst
+
+
+def spec_verdict(chk, case, out):
+    """(accepts, judge): C03.Spec inside Coq when its recursion is affordable, otherwise the exact python oracle of
+    the same definition (oracle_ok)"""
+    if _spec_work(case) <= 6_000_000:
+        return coq_eval_bools(chk.workdir, IMPORTS, [spec_term(case, out)], tag="spec")[0], "C03.Spec (Coq)"
+    return oracle_ok(case, out), "python oracle of the definition (integer table, row minima); C03.Spec too slow here"
+
+
 def gen_long(chk, n_ref, n_hyp, big=()):
     """size-dependent code paths: padded reference / hypothesis widths around and above 256.  long-ref: one pair whose
     reference really is that long (hypothesis of 1-3 tokens) batched with short pairs (eos early, garbage up to the
@@ -787,6 +981,7 @@ def gen_cases(chk):
     cases += gen_entry_layout(chk, 2500 if thorough else 170)
     cases += gen_numeric(chk, 800 if thorough else 70)
     cases += gen_long(chk, 21 if thorough else 3, 14 if thorough else 2, big=(513, 1025) if thorough else (513,))
+    cases += gen_tie_scale(chk, 3200 if thorough else 280)
     return [c for c in cases if in_space(c)]
 
 
@@ -864,8 +1059,9 @@ def judge(chk, case, out):
     """(record, spec_accepts).  optimal_completion: C03.Spec judges the output itself.  Loss: the targets of the
     internal optimal_completion call are judged by the spec; given correct targets the loss value is fixed by the
     property (mean of -log p over them, reductions), so a disagreement with the model is a failing input."""
+    judged_by = None
     if case["api"] == "oc":
-        spec_ok = coq_eval_bools(chk.workdir, IMPORTS, [spec_term(case, out)], tag="spec")[0]
+        spec_ok, judged_by = spec_verdict(chk, case, out)
     else:
         spec_ok = False
     rec = {"case": case, "impl": out, "model": coq_eval_print(chk.workdir, IMPORTS, model_show(case)),
@@ -879,7 +1075,7 @@ def judge(chk, case, out):
     elif case["api"] == "loss":
         tc = _targets_case(case)
         to = run_impl(tc)
-        t_ok = coq_eval_bools(chk.workdir, IMPORTS, [spec_term(tc, to)], tag="spec")[0]
+        t_ok, judged_by = spec_verdict(chk, tc, to)
         rec["targets_call"], rec["targets_impl"], rec["spec_accepts_targets"] = tc, to, t_ok
         rec["what"] = ("hard OCD loss differs from the mean negative log-probability over the optimal-completion targets "
                        "(reduced as requested)" + ("" if t_ok else "; the targets themselves violate the spec"))
@@ -889,6 +1085,10 @@ def judge(chk, case, out):
     else:
         rec["what"] = ("an output row of optimal_completion is not 'the distance-preserving next tokens once each, then "
                        "padding' (or not all padding past the hypothesis end), judged by C03.Spec on the sequences cut at eos")
+    if judged_by:
+        rec["judged_by"] = judged_by
+    if case.get("scale"):
+        rec["scale"] = "costs are k / %d (field 'scale'), logits in quarter units; " % case["scale"] + rec["scale"].split("; ", 1)[1]
     return rec, spec_ok
 
 
@@ -969,11 +1169,21 @@ def run(chk, cases=None):
         chk.count("H=%s" % (H if H <= 8 else ">8" if H < 255 else H))
         chk.count("entry=" + (c.get("entry") or "legacy"))
         chk.count("layout=" + "/".join(c.get("layout") or ("contig", "contig")))
-        for key in ("history", "alias", "ids", "numeric", "llayout", "f32"):
+        for key in ("history", "alias", "ids", "numeric", "llayout", "f32", "tiescale"):
             if c.get(key):
                 chk.count(key + "=" + str(c[key]))
-        if c.get("scale"):
+        if c.get("scale") and not c.get("tiescale"):
             chk.count("scale=%d" % c["scale"])
+        if c.get("tiescale"):
+            # how close a runner-up comes to a row minimum (what a tolerant tie test would merge), from the exact table
+            nears = [x for x in (oracle_pair(c, n)[1] for n in range(N)) if x]
+            denom = Fraction(c["scale"])
+            for name, hit in (("relative gap < 1e-5", any(Fraction(g, m) < Fraction(1, 10 ** 5) for g, m in nears)),
+                              ("relative gap < 1e-6", any(Fraction(g, m) < Fraction(1, 10 ** 6) for g, m in nears)),
+                              ("absolute gap < 1e-8", any(g / denom < Fraction(1, 10 ** 8) for g, m in nears))):
+                if hit:
+                    chk.count("tie-scale/%s: cases with a runner-up that close to a row minimum (%s)" % (c["api"], name))
+            chk.count("tie-scale: padded H %s" % ("<=5" if H <= 5 else "6-10" if H <= 10 else "11-16" if H <= 16 else "17-24"))
         chk.count("outcome=" + ("exc:" + out["exc"] if "exc" in out else "ok"))
         chk.count("pairs", N)
         cuts = [(_cut(r, c["eos"], c["include_eos"]), _cut(h, c["eos"], c["include_eos"])) for r, h in zip(c["ref"], c["hyp"])]
@@ -1005,8 +1215,8 @@ def run(chk, cases=None):
     slow_set = set(slow)
     fast = [i for i in range(len(cases)) if i not in slow_set]
     # every optimal_completion output of the run is also judged by the spec alone (model-free)
-    NEW = ("loss-empty-ref", "eos-mix", "sparse-defaults", "entry-layout", "numeric", "long-ref", "long-hyp")
-    oc_idx = [i for i, c in enumerate(cases) if c["api"] == "oc" and i not in slow_set and
+    NEW = ("loss-empty-ref", "eos-mix", "sparse-defaults", "entry-layout", "numeric", "long-ref", "long-hyp", "tie-scale")
+    oc_idx = [i for i, c in enumerate(cases) if c["api"] == "oc" and i not in slow_set and _spec_work(c) <= 400_000 and
               (replaying or (chk.tier == "thorough" and streams[i] != "exhaustive") or
                i % (4 if streams[i] in NEW else 2) == 0)]
     pool = ThreadPoolExecutor(max_workers=3)
@@ -1036,6 +1246,17 @@ def run(chk, cases=None):
     chk.extra["model_disagreements"] = len(bad)
     spec_bad = [i for i, ok in zip(oc_idx, fut_spec.result()) if not ok]
     pool.shutdown()
+    # the targets of every tie-scale case (for the loss: of its internal optimal_completion call) are also judged by the
+    # exact python oracle of the definition - most of them are too long for C03.Spec
+    orc_idx = [i for i, c in enumerate(cases) if c.get("tiescale") and "exc" not in outs[i]]
+    orc_bad = []
+    for i in orc_idx:
+        tc = cases[i] if cases[i]["api"] == "oc" else _targets_case(cases[i])
+        if not oracle_ok(tc, outs[i] if cases[i]["api"] == "oc" else run_impl(tc)):
+            orc_bad.append(i)
+    chk.extra["oracle_judged_outputs"] = len(orc_idx)
+    chk.extra["oracle_rejections"] = len(orc_bad)
+    spec_bad += [i for i in orc_bad if i not in spec_bad]
     chk.extra["spec_judged_outputs"] = len(oc_idx)
     chk.extra["spec_rejections"] = len(spec_bad)
 
@@ -1060,7 +1281,7 @@ def run(chk, cases=None):
     if bad and not found_concrete:
         hit = [i for i in bad if i in spec_bad]
         if not hit:
-            rest = [i for i in bad if cases[i]["api"] == "oc" and i not in oc_idx]
+            rest = [i for i in bad if cases[i]["api"] == "oc" and i not in oc_idx and _spec_work(cases[i]) <= 400_000]
             r2 = coq_eval_bools(chk.workdir, IMPORTS, [spec_term(cases[i], outs[i]) for i in rest], tag="specbad")
             hit = [i for i, ok in zip(rest, r2) if not ok]
         if hit:
